@@ -24,7 +24,12 @@ CHECKS["C14"] = dict(
          "stop() followed by a fresh start reproduces the persisted projection; change_marks_dirty: every step that changes "
          "what persistence keeps sets need_save (the induction has one case per handler, so a handler that forgets the dirty "
          "mark is an unprovable case). The model is diffed against the real gateway (need_save flag and tree after every op) "
-         "on generated histories with real json/pickle files.",
+         "on generated histories with real json/pickle files (the real stop() is called, its last line handled at the "
+         "moment of the disconnect; gateways with and without an event callback). Shutdown window "
+         "(Properties/C14Stop.lean): clean_stop_window — for every placement of the pump's work relative to stop()'s "
+         "disconnect and final save, every change whose reply went out is in the file; reversed_order_loses — with the save "
+         "first it is not. The order of the two actions inside the real stop() of both flavours is recorded and compared "
+         "with the model's script.",
     note="Trusted: Lean kernel; Model/Gateway.lean as a model of __init__.py/handler.py/sensor.py/ota.py (validated by the "
          "correspondence, not proved); persistence abstracted to 'file = persisted projection of last successful save' "
          "(formats: C11, atomicity: C12); tables regenerated from /repo.",
@@ -34,7 +39,9 @@ CHECKS["C06"] = dict(
     text="Theorem allocs_spec / ids_never_twice: over every history (any ops, clean stop/restart cycles with persistence) the "
          "ids allocated for accepted id requests are pairwise distinct, in 1..254 and unknown when allocated; alloc_reply ties "
          "the allocation to the id-response line; no response when no id is free. Correspondence compares emitted lines and the "
-         "known-id set per op; the oracle collects id-response payloads across real restarts sharing one file.",
+         "known-id set per op; the oracle collects id-response payloads across real restarts sharing one file. "
+         "stop_window_ids (Properties/C06Stop.lean): an id response that goes out while stop() runs is in the file stop() "
+         "leaves, for every interleaving of the pump with stop()'s disconnect-then-save (order recorded on the real stop()).",
     note="Trusted: Lean kernel; Model/Gateway.lean (validated by correspondence); persistence abstraction as in C14; the ghost "
          "definition allocs (ties to the emitted line by theorem alloc_reply).",
     design_ref="DESIGN.md §6 C06")
